@@ -16,6 +16,9 @@ CLAIMS = {
  'C13': ("C13_exact (n < 2^32, both build modes), C13_checked_all_n, C13_wrap (exact acceptance condition of wrapping arithmetic), C13_extremes (2^63, 2^64-1), C13_first (guard verdict is the call's verdict for every entry point/prior state) proved against the shape guard regenerated from CondensedMatrix::new; exhaustive (len,n) grid on the real crate in dev and release builds.",
          "Lean kernel + standard axioms; translator for condensed.rs (assert!/assert_eq! and usize arithmetic made explicit); order guard-before-state hand-modelled, tied by correspondence in both build profiles.",
          "Lean 4 theorem over translated guard (explicit 64-bit arithmetic) + exhaustive shape grid in two build profiles"),
+ 'C08': ("Full statement proved for the model: C08_state_irrelevant (any two prior states/dendrograms incl. those left by panicking calls), C08_history (any sequence of earlier calls), C08_repeat, C08_reset_bodies (reset bodies translated from the source give one canonical value from every prior value), C08_prologue (translated call sites), C08_no_shared_state (translated scan). History correspondence: shared objects vs fresh objects vs model, with panicking calls, run concurrently on all cores.",
+         "Lean kernel + standard axioms; translator for the five reset bodies, the _with prologues and the purity scan; soundness of safe Rust for the threads part; what happens between reset and the loops is hand-modelled, tied by the history correspondence.",
+         "Lean 4 theorem (reset = fresh for all prior states) over translated reset bodies + history correspondence"),
 }
 NOT_YET = "check not built yet in this round (build in progress)"
 
